@@ -42,6 +42,8 @@ def bounds(tier):
 def object_lists(tier):
     objs = [{'a': v} for v in VALUES]
     out = [[]] + [[o] for o in objs] + [[{}], [{}, {'a': 0}, {}], [{'a': {}}, {'b': []}, {'c': ''}]]
+    # items that are JSON values but not objects: one line each all the same (null excepted: load drops it by design)
+    out += [[7], [0, 5], ['x', '', [1, 2], 1.5, True, False, [], 'a b'], [[1], [[]], 0]]
     out.append([{'a': 'x' * 70000}, {'b': '\u00e9"\n' * 30000}])
     out.append([{'i': i, 's': '\u00e9' * (i % 7), 'n': [i, {'k': None}] if i % 3 else []} for i in range(300)])
     pairs = list(itertools.product(range(len(VALUES)), repeat=2))
